@@ -54,6 +54,13 @@ def write_input(d, case, name='in.bam'):
         os.utime(path + '.bai', (t - st[1], t - st[1]))     # simulated clock: the index is st[1] seconds older than the BAM
     elif st and st[0] == 'missing':
         os.remove(path + '.bai')
+    elif st and st[0] == 'no-unplaced-count':
+        # a .bai written without the optional trailing count of reads without coordinates (other indexers omit it): htslib accepts it,
+        # fetch('*') still delivers those reads, idxstats reports 0 of them
+        with open(path + '.bai', 'r+b') as f:
+            f.truncate(os.path.getsize(path + '.bai') - 8)
+        t = os.path.getmtime(path)
+        os.utime(path + '.bai', (t + 1, t + 1))
     return path
 
 
@@ -141,7 +148,7 @@ def conservation_diff(P, workload, method, no_rejects, got_records):
         target = collections.Counter(conservation_key(r, both) for r in P)
     else:
         invalid_ids = {f['n'] for f in workload if lib.invalid_for(f, method)}
-        half = {f['n'] for f in workload if f.get('defect') == 'r2unmapped'}
+        half = {f['n'] for f in workload if f.get('defect') == 'r2unmapped' or f.get('discordant')}
         target = collections.Counter(conservation_key(r, both) for r in P if r['id'] not in invalid_ids)
         # the unmapped mate of a half-mapped pair is handed over as a fragment of its own: optional under --no_rejects
         for r in P:
